@@ -204,6 +204,7 @@ def _child_learn(unit: dict) -> dict:
         clock_origin_s=unit.get("clock_origin_s", 1704067200),
         clock_tick_us=unit.get("clock_tick_us", 1000),
         step_budget=unit.get("step_budget", STEP_BUDGET),
+        fs_seed=unit.get("fs_seed", 0),
     )
     seams_mod.install(sm, detect_loops_monitor=mon)
     from tel2puml.pv_to_puml.pv_to_puml import pv_to_puml_string
@@ -278,8 +279,17 @@ def _child_learn(unit: dict) -> dict:
         "events": len(puml_sem.event_name_list(ast)),
     }
     try:
-        text = pv_to_puml_string(pv, puml_name="x")
+        if unit.get("via_cli"):
+            text = learn_through_cli(pv)
+            rec["fs_permuted"] = sm.fs_permuted
+        else:
+            text = pv_to_puml_string(pv, puml_name="x")
         rec["status"] = "ok"
+    except SystemExit:
+        # the CLI handler turned an exception into exit(1)
+        rec["status"] = "exc"
+        rec["exc"] = "CLI-exit:" + str(_CLI_ERR.get("error"))
+        text = None
     except seams_mod.StepBudgetExceeded:
         rec["status"] = "no-termination"
         text = None
@@ -306,6 +316,48 @@ def _child_learn(unit: dict) -> dict:
     analyse_text(rec, text, names_in, src_jobs, src2, delivered_idx,
                  kin, want=unit.get("want", ("c01", "c02", "c05")))
     return rec
+
+
+_CLI_ERR: dict = {}
+
+
+def learn_through_cli(pv) -> str:
+    """Deliver the jobs as files in a folder and learn them with the real
+    `pv2puml -fp <folder> -jn x` handler (listing order is seeded)."""
+    import json
+    import os
+    import shutil
+    import tempfile
+
+    import tel2puml.__main__ as mn
+
+    real_he = mn.handle_exception
+
+    def he_spy(e, *a, **k):
+        _CLI_ERR["error"] = type(e).__name__
+        if isinstance(e, (seams_mod.StepBudgetExceeded, RecursionError)):
+            raise e
+        return real_he(e, *a, **k)
+
+    mn.handle_exception = he_spy
+    tmp = tempfile.mkdtemp(prefix="verif-lcli-", dir="/dev/shm"
+                           if os.path.isdir("/dev/shm") else None)
+    try:
+        d = os.path.join(tmp, "jobs")
+        os.makedirs(d)
+        for i, job in enumerate(pv):
+            with open(os.path.join(d, f"job_{i:04d}.json"), "w") as f:
+                json.dump(job, f)
+        out = os.path.join(tmp, "out")
+        mn.main_handler(
+            {"command": "pv2puml", "job_name": "x", "group_by_job": False,
+             "mapping_config_file": None, "input_puml_models": [],
+             "output_puml_models": False, "output_file_directory": out,
+             "debug": False, "folder_path": d, "file_paths": []},
+            mn.ERROR_MESSAGES)
+        return open(os.path.join(out, "x.puml")).read()
+    finally:
+        shutil.rmtree(tmp, ignore_errors=True)
 
 
 def analyse_text(rec, text, names_in, src_jobs, src2, delivered_idx, kin,
